@@ -75,6 +75,24 @@ def search(pid, routine, failure, rep):
             elif h.get("case") == k:
                 return True
         return False
+    known_seen = {}
+    for h in hits:
+        if is_known(h):
+            known_seen.setdefault(h.get("case"), h)
+    if known_seen:
+        # a listed finding that only the exploration can observe is announced like the obligation-based ones (once per case)
+        notes = {}
+        try:
+            for l in open(os.path.join(os.path.dirname(os.path.dirname(os.path.abspath(__file__))), "known_findings.txt")):
+                if l.startswith("known: property=%s case=" % pid):
+                    rest = l.split("case=", 1)[1].strip()
+                    cname, _, text = rest.partition(" ")
+                    notes[cname.split("/")[-1]] = text
+        except Exception:
+            pass
+        for cname, h in known_seen.items():
+            if cname in notes and not os.environ.get("RWS_QUIET_KNOWN_CASES"):
+                print("KNOWN-FINDING: property=%s falsifier case %s/%s (input %s) -- %s" % (pid, h.get("routine"), cname, json.dumps(h.get("input"))[:120], notes[cname]))
     hits = [h for h in hits if not is_known(h)]
     prefixes = units.PROPS.get(pid, {}).get("case_prefixes")
     if prefixes:
